@@ -236,7 +236,7 @@ Fixpoint folded_lens (fe : tstmt -> tenv) (t : tenv) (ss : list gstmt) : list wv
        end) ++ folded_lens fe (track1 (is_gated g) t s) r
   end.
 
-(* case: (0 (setup stmts) (body stmts) n)  ->  (0 guard (fw phases) (py phases) frozen_ok)      py phase = (0 (outs) live named)
+(* case: (0 (setup stmts) (body stmts) n)  ->  (0 guard (fw phases) (py phases) frozen_ok value_ok)      py phase = (0 (outs) live named)
    case: (1 (setup stmts) (body stmts) (gates) (g values, one per pass))  ->  the same for the
          history in which pass k executes the body statements whose gate t satisfies t < g_k
    case: (2 (setup tstmts) (body tstmts) (gates) (run-time values c, one per pass))  ->  (0 len_ok (fw phases) (py phases)
@@ -251,7 +251,8 @@ Definition run (v : wv) : wv :=
           wok [wbool (single_owner setup body);
                WL (fw_trace setup body k);
                WL (py_trace setup body k);
-               wbool (frozen_ok setup (repeat body k))]
+               wbool (frozen_ok setup (repeat body k));
+               wbool (value_ok setup (repeat body k))]
       | _, _ => wbad
       end
   | WL [WI 1; WL s; WL b; WL gates; WL gvals] =>
@@ -265,7 +266,8 @@ Definition run (v : wv) : wv :=
           wok [wbool (single_owner_seq setup bodies);
                WL (fw_trace_seq setup bodies);
                WL (py_trace_seq setup bodies);
-               wbool (frozen_ok setup bodies)]
+               wbool (frozen_ok setup bodies);
+               wbool (value_ok setup bodies)]
       | _, _, _, _ => wbad
       end
   | WL [WI 2; WL s; WL b; WL gates; WL cvals] =>
